@@ -1,3 +1,5 @@
+import json
+
 from lib.driver import Ob
 
 LEVEL = 'model_checking'
@@ -37,41 +39,22 @@ def obligations(tier):
               bounds='year 1..9999, month -1..14, day -1..33, hour -1..25, minute -1..61',
               encodes=['recognizers_date_time.date_time.utilities:DateUtils.safe_create_from_value', 'recognizers_date_time.date_time.utilities:DateUtils.is_valid_date',
                        'recognizers_date_time.date_time.utilities:DateUtils.is_valid_time'])]
-    import json as _json
-    import os as _os
-    H = _os.path.join(_os.path.dirname(_os.path.dirname(_os.path.abspath(__file__))), 'harness')
-    known = _json.load(open(_os.path.join(H, 'c11_known.json'), encoding='utf-8'))          # culture -> finding id -> inputs whose counterexample is that recorded finding
-    enc = ['recognizers_date_time.date_time.base_merged:BaseMergedParser.parse', 'recognizers_date_time.date_time.base_merged:BaseMergedParser.set_parse_result',
-           'recognizers_date_time.date_time.models:DateTimeModel.parse']
-    slices, region, nq, nt = [], {}, {}, {}
-    for cult, step in (('en-us', 18), ('zh-cn', 12), ('es-es', 12), ('fr-fr', 12), ('pt-br', 12), ('de-de', 12), ('it-it', 12), ('nl-nl', 12)):
-        f = _os.path.join(H, 'c11_inputs.json' if cult == 'en-us' else 'c11_inputs_%s.json' % cult)
-        if not _os.path.exists(f):
-            continue
-        pool = _json.load(open(f, encoding='utf-8'))
-        kn = known.get(cult, {})
-        listed = set(q for qs_ in kn.values() for q in qs_)
-        ok = [x for x in pool['discharged'] if x['q'] not in listed]
-        extra = [q for q in pool.get('recheck', []) if q not in listed]          # inputs of repaired findings and the like: always checked
-        quick_q = [x['q'] for x in ok if x['wall'] <= 12][::step] + extra
-        qs = quick_q if tier == 'quick' else [x['q'] for x in ok] + extra
-        nq[cult], nt[cult] = len(quick_q), len(ok) + len(extra)
-        slices += [{'q': q} if cult == 'en-us' else {'q': q, 'culture': cult} for q in qs]
-        for fid, qs_ in kn.items():
-            region.setdefault(fid, []).extend({'q': q} if cult == 'en-us' else {'q': q, 'culture': cult} for q in qs_)
+    from props import _corpus
+    slices, counts, region = _corpus.slices(tier, 'timex', quick_step={'en-us': 18, 'es-es': 24, 'fr-fr': 24})
     obs.append(Ob('O11.4-corpus-wellformed', 'sx', 'harness.apidt:h_wellformed', twin=None, slices=slices, timeout=90 if tier == 'quick' else 240,
                   descr='API level, symbolic reference datetime: for each DateTimeModel Specs input of each culture (a pool of realistic queries; expected outputs not consulted) and EVERY reference datetime, '
-                        'every value of every returned entity has the shape its type promises: valid calendar dates / times, type name = type of the values, pure date ranges with start before end',
-                  bounds='reference = every minute 1950-01-01..2090-12-31 (symbolic day number, hour, minute); inputs per culture quick %s, thorough %s; the inputs listed in harness/c11_known.json '
-                         'are explored by the O11.4-known-* obligations instead' % (_json.dumps(nq), _json.dumps(nt)),
-                  encodes=enc,
-                  stubs=['DateTimeModel.parse mirrored with the same swallow-exceptions behaviour for parser errors; unmodelled calendar operations end the slice as inconclusive']))
+                        'every value of every returned entity has the shape its type promises (valid calendar dates / times, type name = type of the values, pure date ranges with start before end) '
+                        'and, when its TIMEX is fully definite (a date, a time, a date-time, or the endpoints of a (start,end,duration) TIMEX), equals it',
+                  bounds=_corpus.REF + '; inputs per culture %s; the inputs listed in harness/c11_known.json are explored by the O11.4-known-* obligations instead' % json.dumps(counts),
+                  encodes=_corpus.ENC, stubs=_corpus.STUBS))
+    region = _corpus.regions('C11')
     for fid in sorted(region):
         obs.append(Ob('O11.4-known-' + fid, 'sx', 'harness.apidt:h_wellformed', twin=None, slices=region[fid], timeout=90 if tier == 'quick' else 240, finding=fid,
                       descr='the same exploration on the inputs whose counterexample is the recorded finding %s (identified by input): reported as KNOWN-FINDING while open' % fid,
-                      bounds='reference = every minute 1950-01-01..2090-12-31; %d inputs' % len(region[fid]), encodes=enc))
+                      bounds=_corpus.REF + '; %d inputs' % len(region[fid]), encodes=_corpus.ENC))
     obs.append(Ob('O11.4-witness-range', 'fn', 'harness.witness:api_witness', slices=[{'w': 'F45'}], timeout=t, finding='F45', descr='API witness of F45 (range with a reference-relative endpoint: start not before end)'))
     obs.append(Ob('O11.4-witness-time', 'fn', 'harness.witness:api_witness', slices=[{'w': 'F46'}], timeout=t, finding='F46', descr='API witness of the repaired F46 (time range end 27:00:00): a reappearance is a violation'))
     obs.append(Ob('O11.4-witness-zh-range', 'fn', 'harness.witness:api_witness', slices=[{'w': 'F47'}], timeout=t, finding='F47', descr='API witness of the repaired F47 (Chinese year-less period, start a year after end): a reappearance is a violation'))
     obs.append(Ob('O11.4-witness-zh-years', 'fn', 'harness.witness:api_witness', slices=[{'w': 'F48'}], timeout=t, finding='F48', descr='API witness of F48 (three years joined into the empty range 2000..2000)'))
+    obs.append(Ob('O11.4-witness-year-context', 'fn', 'harness.witness:api_witness', slices=[{'w': 'F51'}], timeout=t, finding='F51', descr='API witness of F51 (range end value takes the start\'s year, TIMEX does not)'))
     return obs
